@@ -704,6 +704,21 @@ func writeIgnoreScenario(k *Walker) {
 		}
 		k.W.C.Count("scale.long-ignore-file")
 	}
+	if r.IntN(3) == 0 {
+		// blank lines between the rules, at the top, at the end (a blank line separates rules, it is not one)
+		var spaced []string
+		if r.IntN(2) == 0 {
+			spaced = append(spaced, "")
+		}
+		for i, ln := range lines {
+			spaced = append(spaced, ln)
+			if i%2 == 0 || r.IntN(3) == 0 {
+				spaced = append(spaced, "")
+			}
+		}
+		lines = spaced
+		k.W.C.Count("scale.ignore-file-with-blank-lines")
+	}
 	if r.IntN(8) == 0 {
 		// the ignore file is a symbolic link to a rules file kept elsewhere (a dotfiles directory)
 		w.Write("../home/dotfiles/goit-ignore-rules", []byte(strings.Join(lines, "\n")+"\n"))
